@@ -69,12 +69,61 @@ func history(c *core.Ctx, r *core.Result, kind string, idx int, rng *rand.Rand, 
 		}
 	}
 	nsess := 1 + rng.Intn(3)
+	ambiguous := ""
 	allIDs := []quickfix.SessionID{
 		{BeginString: "FIX.4.4", SenderCompID: "S", TargetCompID: "T"},
 		{BeginString: "FIX.4.4", SenderCompID: "S", TargetCompID: "T", SenderSubID: "sub", TargetLocationID: "loc"},
 		{BeginString: "FIX.4.2", SenderCompID: "S", TargetCompID: "T", Qualifier: "q1", SenderLocationID: "sl", TargetSubID: "ts"},
 	}
 	ids := allIDs[:nsess]
+	if rng.Intn(3) == 0 {
+		// sessions that differ in a single part of the identity only (sub id, location id, qualifier, version)
+		base := quickfix.SessionID{BeginString: "FIX.4.4", SenderCompID: "S", TargetCompID: "T"}
+		vary := func(k int) quickfix.SessionID {
+			id := base
+			switch k {
+			case 0:
+				id.TargetLocationID = "tlNY"
+			case 1:
+				id.TargetLocationID = "tlLDN"
+			case 2:
+				id.SenderLocationID = "slNY"
+			case 3:
+				id.TargetSubID = "tsNY"
+			case 4:
+				id.SenderSubID = "ssNY"
+			case 5:
+				id.Qualifier = "qNY"
+			case 6:
+				id.BeginString = "FIX.4.2"
+			}
+			return id
+		}
+		perm := rng.Perm(8)
+		ids = nil
+		for _, k := range perm[:2+rng.Intn(2)] {
+			ids = append(ids, vary(k)) // (k == 7: the base identity itself)
+		}
+		if rng.Intn(4) == 0 {
+			// two different identities whose parts spell the same text when joined: the same word once as SubID
+			// and once as LocationID, or a CompID containing the separator
+			ambiguous = "/ambiguous-file-names"
+			switch rng.Intn(3) {
+			case 0:
+				a, b := base, base
+				a.SenderSubID, b.SenderLocationID = "NY", "NY"
+				ids = []quickfix.SessionID{a, b}
+			case 1:
+				a, b := base, base
+				a.TargetSubID, b.TargetLocationID = "NY", "NY"
+				ids = []quickfix.SessionID{a, b}
+			default:
+				a, b := base, base
+				a.Qualifier, b.TargetCompID = "q", "T-q"
+				ids = []quickfix.SessionID{a, b}
+			}
+		}
+	}
 	var ss []*sessState
 	var trace []opRec
 	fail := func(sig, f string, a ...interface{}) {
@@ -82,6 +131,10 @@ func history(c *core.Ctx, r *core.Result, kind string, idx int, rng *rand.Rand, 
 		tail := trace
 		if len(tail) > 12 {
 			tail = tail[len(tail)-12:]
+		}
+		if ambiguous != "" {
+			sig = strings.TrimPrefix(ambiguous, "/") + "/" + sig
+			msg += fmt.Sprintf(" (sessions %v)", ids)
 		}
 		r.Violate("C16/"+kind+"/"+sig, fmt.Sprintf("%s store: %s; last operations %v", kind, msg, tail), core.CaseRef{Stream: kind, Index: idx, Detail: trace})
 		if verbose {
